@@ -1,6 +1,7 @@
 package main
 
 import (
+	"os"
 	"fmt"
 	"go/constant"
 	"go/token"
@@ -86,6 +87,7 @@ type Obligation struct {
 	Pos       string
 	Body      string // assertions (defs + assumptions + negated goal)
 	ExpectSat bool   // cover: must be sat
+	PreBody   string // cover after a call: assertions before the call (unsat here excuses an unsat cover)
 	Goal      string // human-readable
 	fc        *FnCtx
 }
@@ -112,6 +114,7 @@ type Gen struct {
 func (g *Gen) note(f string, a ...any) { g.notes[fmt.Sprintf(f, a...)] = true }
 
 type FnCtx struct {
+	callPreHit map[int]bool
 	g       *Gen
 	fn      *ssa.Function
 	spec    *FuncSpec
@@ -252,6 +255,31 @@ func (c *FnCtx) cover(detail string, guard Term) {
 	c.obls = append(c.obls, &Obligation{
 		Name: c.oblName("cover", detail), Kind: "cover", Fn: c.spec.Name, Pkg: c.spec.Pkg, Props: c.spec.Props,
 		Pos: c.posString(token.NoPos), Body: b.String(), ExpectSat: true, Goal: "reachable: " + detail, fc: c,
+	})
+}
+
+// coverAfterCall emits a cover that is expected to be satisfiable unless the path was already dead
+// before the call (PreBody is then unsatisfiable too; decided lazily by the solver driver).
+func (c *FnCtx) coverAfterCall(callee string, guard Term, nDefs, nAssumes int, guard0 Term) {
+	var b, pb strings.Builder
+	for i, d := range c.defs {
+		fmt.Fprintf(&b, "(assert %s)\n", d)
+		if i < nDefs {
+			fmt.Fprintf(&pb, "(assert %s)\n", d)
+		}
+	}
+	for i, a := range c.assumes {
+		fmt.Fprintf(&b, "(assert %s)\n", a)
+		if i < nAssumes {
+			fmt.Fprintf(&pb, "(assert %s)\n", a)
+		}
+	}
+	fmt.Fprintf(&b, "(assert %s)\n", guard.S)
+	fmt.Fprintf(&pb, "(assert %s)\n", guard0.S)
+	c.obls = append(c.obls, &Obligation{
+		Name: c.oblName("cover", "after:"+callee), Kind: "cover", Fn: c.spec.Name, Pkg: c.spec.Pkg, Props: c.spec.Props,
+		Pos: c.posString(token.NoPos), Body: b.String(), PreBody: pb.String(), ExpectSat: true,
+		Goal: "the contract assumed for " + callee + " does not contradict the path it is called on", fc: c,
 	})
 }
 
@@ -901,6 +929,12 @@ func (c *FnCtx) run() {
 	if len(c.retReach) > 0 {
 		c.cover("some-return", or(c.retReach...))
 	}
+	// vacuity guard: a callpre clause that matches no call site checks nothing
+	for i, cp := range c.spec.CallPres {
+		if !c.callPreHit[i] {
+			c.abort("callpre %d (%s) matches no call site", i+1, cp.Name)
+		}
+	}
 }
 
 func (c *FnCtx) topoOrder() []*ssa.BasicBlock {
@@ -1077,6 +1111,9 @@ func (c *FnCtx) execBlock(b *ssa.BasicBlock) {
 		return
 	}
 	c.out[b] = cur
+	if os.Getenv("GOVC_DEBUG_GHOST") != "" {
+		fmt.Fprintf(os.Stderr, "block %d out: %s = %v\n", b.Index, os.Getenv("GOVC_DEBUG_GHOST"), cur.heaps[os.Getenv("GOVC_DEBUG_GHOST")])
+	}
 }
 
 // enterLoop checks invariants on entry, havocs modified state, assumes invariants.
